@@ -103,6 +103,34 @@ class C06Proj(ControlProjector):
         return None
 
 
+class AllProj:
+    """every observation of the engine belongs to the property"""
+    def __init__(self, interesting=None):
+        self.interesting = interesting
+
+    def step(self, kind, op, a, b):
+        return a, b, (self.interesting(kind, op, b) if self.interesting else True)
+
+
+class C10Proj(ControlProjector):
+    """rollout commands, which target group answers cookie-bearing requests, the persisted split"""
+    def step(self, kind, op, a, b):
+        self.track(kind, op, a, b)
+        if kind in ('rollout-deploy', 'rollout-set', 'rollout-stop'):
+            return a, b, kind == 'rollout-set' and b == 'res ok'
+        if kind == 'req':
+            fa, fb = a.split(' '), b.split(' ')
+            if len(fb) > 1 and fb[1] == 'fwd':
+                return a, b, '-r' in unhex(fb[2].split('=', 1)[1])
+            return None
+        if kind == 'snapshot':
+            import re
+            pa = ' '.join(re.findall(r'name=\S+|rollout=\S+|split=\S+', a))
+            pb = ' '.join(re.findall(r'name=\S+|rollout=\S+|split=\S+', b))
+            return pa, pb, False
+        return None
+
+
 def control(projector, n_quick=160, n_thorough=6000):
     return dict(engine='control', n_quick=n_quick, n_thorough=n_thorough, projector=projector)
 
@@ -111,7 +139,25 @@ RULE_CONTROL = ("cases are command histories (6-20 commands of deploy/redeploy/r
                 "commands of every class, over a per-case sub-alphabet of hosts and prefixes rich in look-alikes) each followed by list, "
                 "snapshot, probing and 2-5 route/request/certificate queries; one PRNG seeded by VERIF_SEED; a case counts as non-trivial ")
 
+def engine(name, projector, n_quick, n_thorough, **kw):
+    d = dict(engine=name, n_quick=n_quick, n_thorough=n_thorough, projector=projector)
+    d.update(kw)
+    return d
+
+
 PROPS = {
+    'C10': dict(
+        engines=[engine('rollout', lambda: AllProj(lambda k, op, b: k == 'pct' or 'present=1' in b), 120, 20000),
+                 control(C10Proj, 120, 4000)],
+        rule="engine rollout: the split point for every percentage -3..103 (+ outliers) on every run (exhaustive over 0..100), and generated "
+             "(percentage, allowlist, Cookie header lines) triples - lines built from a grammar of names (look-alikes, case, padding), "
+             "separators, quoted/invalid/empty/raw-byte values, several header lines - compared on decision, extracted value and hash; "
+             "non-trivial = the cookie is present. Engine control: histories with rollout deploy/set/stop/redeploy/restart and cookie-bearing "
+             "requests; non-trivial = a request answered by a rollout target or an accepted rollout-set.",
+        assumptions=["IEEE-754 binary64 rounding of the two float operations and net/http cookie parsing are modelled (Std/Float, Std/Cookie) "
+                     "and tied only by this comparison", "a cookie present with an empty value counts as absent (stated in C10_decision)",
+                     "uniformity of FNV-1a over real cookie strings is not a theorem"],
+    ),
     'C06': dict(
         engines=[control(C06Proj)],
         rule=RULE_CONTROL + "for C06 when a command fails (any error class) while at least one service is deployed; after each failing "
